@@ -52,6 +52,37 @@ def gocache():
     return d
 
 
+def gocache_base(race=False):
+    """A GOCACHE holding only the standard-library packages that generated parsers and shims import; every corpus
+    run works on a private copy of it, so the shared cache does not grow with thousands of throw-away packages."""
+    d = os.path.join(CACHE, "gocache-base-race" if race else "gocache-base")
+    with Lock("gocache-base" + ("-race" if race else "")):
+        if os.path.isdir(d) and os.path.exists(os.path.join(d, ".ready")):
+            return d
+        shutil.rmtree(d, ignore_errors=True)
+        os.makedirs(d)
+        w = scratch("verif-gcbase-")
+        with open(os.path.join(w, "go.mod"), "w") as fh:
+            fh.write("module gcbase\n\ngo 1.25\n")
+        with open(os.path.join(w, "main.go"), "w") as fh:
+            fh.write("package main\n\nimport (\n" + "".join(f'\t_ "{p}"\n' for p in (
+                "bufio", "bytes", "crypto/sha256", "encoding/hex", "encoding/json", "flag", "fmt", "io", "os", "path/filepath", "regexp",
+                "slices", "strconv", "strings", "sync", "time", "net/url", "math", "sort", "unicode", "unicode/utf8", "errors")) + ")\n\nfunc main() {}\n")
+        env = go_env({"GOCACHE": d})
+        r = subprocess.run(["go", "build"] + (["-race"] if race else []) + ["-o", os.path.join(w, "x"), "."], cwd=w, env=env, capture_output=True, text=True)
+        if r.returncode != 0:
+            raise Infra("building the base GOCACHE failed:\n" + r.stdout + r.stderr)
+        open(os.path.join(d, ".ready"), "w").write("ok")
+        shutil.rmtree(w, ignore_errors=True)
+    return d
+
+
+def private_gocache(work, race=False):
+    dst = os.path.join(work, "gocache")
+    shutil.copytree(gocache_base(race), dst)
+    return dst
+
+
 def trim_gocache(limit_gb=12):
     d = gocache()
     try:
@@ -257,7 +288,8 @@ def materialise_and_judge(scs, tags="", l2=False):
     peg = build_peg("" if tags == "racebatch" else tags)
     obs = os.path.join(work, "obs.ndjson")
     r = subprocess.run([driver_bin(), "corpus", "-scen", os.path.join(sdir, "scen_*.ndjson"), "-peg", peg,
-                        "-work", work, "-out", obs, "-j", str(NCPU), "-gocache", gocache()] + (["-verif"] if tags == "verif" else [])
+                        "-work", work, "-out", obs, "-j", str(NCPU), "-gocache", private_gocache(work, tags == "racebatch")]
+                       + (["-verif"] if tags == "verif" else [])
                        + (["-race"] if tags == "racebatch" else []),
                        capture_output=True, text=True, env=go_env())
     if r.returncode != 0:
@@ -275,7 +307,19 @@ def materialise_and_judge(scs, tags="", l2=False):
     vdir = os.path.join(work, "verdict")
     os.makedirs(vdir)
     jch = min(NCPU, len(scs))
-    j = run_tlc("JudgeCorpus", "JudgeCorpus.cfg", env=dict(JUDGE_IN=joined, JUDGE_OUT=vdir, JUDGE_CHUNKS=jch), timeout=3600)
+    # one file per chunk, balanced by size, so that each TLC worker deserialises only what it judges
+    lines = open(joined).read().split("\n")
+    lines = sorted((l for l in lines if l), key=len, reverse=True)
+    buckets = [[] for _ in range(jch)]
+    sizes = [0] * jch
+    for l in lines:
+        k = sizes.index(min(sizes))
+        buckets[k].append(l)
+        sizes[k] += len(l)
+    for k, b in enumerate(buckets):
+        with open(f"{joined}_{k + 1}.ndjson", "w") as fh:
+            fh.write("\n".join(b) + "\n")
+    j = run_tlc("JudgeCorpus", "JudgeCorpus.cfg", env=dict(JUDGE_IN=joined, JUDGE_OUT=vdir, JUDGE_CHUNKS=jch), timeout=7200)
     files = sorted(glob.glob(os.path.join(vdir, "verdict_*.ndjson")))
     if len(files) != jch:
         raise Infra("judge did not write every chunk")
@@ -402,7 +446,14 @@ def set_pipeline(family, n, sd, u, k):
         nh = int(re.search(r"(\d+) histories", r.stderr).group(1))
         vdir = os.path.join(work, "verdict")
         os.makedirs(vdir)
-        j = run_tlc("JudgeSet", "JudgeSet.cfg", env=dict(JUDGE_IN=joined, JUDGE_OUT=vdir, JUDGE_CHUNKS=chunks), timeout=3600)
+        chunks = NCPU * 4                    # many small chunks: bounded memory per worker, good balance
+        outs = [open(f"{joined}_{k + 1}.ndjson", "w") for k in range(chunks)]
+        with open(joined) as fh:
+            for n_, line in enumerate(fh):
+                outs[n_ % chunks].write(line)
+        for o in outs:
+            o.close()
+        j = run_tlc("JudgeSet", "JudgeSet.cfg", env=dict(JUDGE_IN=joined, JUDGE_OUT=vdir, JUDGE_CHUNKS=chunks), timeout=7200)
         files = sorted(glob.glob(os.path.join(vdir, "verdict_*.ndjson")))
         if len(files) != chunks:
             raise Infra("judge did not write every chunk")
@@ -554,6 +605,32 @@ def syntax_pipeline(n, sd, mutations):
                    accepted=sum(x["accepted"] for x in stats),
                    samples=[dict(style=s["style"], text=s["text"].split("}", 1)[-1][:300]) for s in scs[:4]],
                    tlc=[ginfo, dict(step="judge", wall=round(j["wall"], 1))])
+        shutil.rmtree(work, ignore_errors=True)
+        with open(key, "w") as fh:
+            json.dump(res, fh)
+        return res
+
+
+def l0_optimizer(n, sd, maxin=200):
+    """L0 for C02: Optimizer!Rewrite + emitted dispatch semantics against PegSem!Eval over the switch family;
+    the variant transcribing the pinned (unrepaired) rules must be refuted (the model has teeth)."""
+    key = os.path.join(CACHE, f"l0opt_{n}_{sd}_{maxin}_{harness_hash()}.json")
+    with Lock("l0opt"):
+        if os.path.exists(key):
+            with open(key) as fh:
+                return json.load(fh)
+        scs, _ = generate("switch", n, sd)
+        work = scratch("verif-l0opt-")
+        scen = os.path.join(work, "scen.ndjson")
+        with open(scen, "w") as fh:
+            for sc in scs:
+                fh.write(json.dumps(sc) + "\n")
+        r = run_tlc("MCOptimizer", "MC_Optimizer.cfg", env=dict(MC_SCEN=scen, MC_MAXIN=maxin), timeout=3600, check=False)
+        if r["rc"] != 0 or "No error has been found" not in r["out"]:
+            raise Infra("L0 Optimizer model check failed (specification-level, not a verdict about the code):\n" + r["out"][-3000:])
+        p = run_tlc("MCOptimizer", "MC_Optimizer_pinned.cfg", env=dict(MC_SCEN=scen, MC_MAXIN=maxin), timeout=3600, check=False)
+        res = dict(scenarios=len(scs), states=r["distinct"], transitions=r["states"], wall=round(r["wall"], 1),
+                   pinned_rules_refuted="Invariant Sound is violated" in p["out"])
         shutil.rmtree(work, ignore_errors=True)
         with open(key, "w") as fh:
             json.dump(res, fh)
